@@ -91,23 +91,35 @@ def rule_e12(ctx):
         rep.ob('E2', 'parallel_utils.single_thread_prefetch.worker::error-stored-before-the-sentinel', ok, h, '')
     # E2 consumer: re-raise after the try/finally
     fn = S.fn
-    body = fn.body
-    ti = body.index(S.consumer_try)
-    after = body[ti + 1:]
+    derived = set(S.exc_names)
+    for n in A.walk_local(fn):
+        if isinstance(n, ast.Assign) and any(isinstance(x, ast.Name) and x.id in S.exc_names for x in ast.walk(n.value)):
+            for t in n.targets:
+                derived.update(A.name_targets(t))
+    end_try = max(getattr(x, 'lineno', 0) for x in ast.walk(S.consumer_try))
     reraise = None
-    for s in after:
-        if isinstance(s, ast.If) and any(A.is_name(x, e) for x in ast.walk(s.test) for e in S.exc_names) \
-                and any(isinstance(x, ast.Raise) and x.exc is not None for x in s.body):
-            reraise = s
-    ok = reraise is not None
-    if ok:
-        kind, ats = A.atoms(reraise.test)
-        ok = any(len(a) == 3 and a[1] == 'is not' and A.is_const(a[2], None) for a in ats) or \
-            any(len(a) == 3 and a[1] == 'truthy' for a in ats)
-        r = [x for x in reraise.body if isinstance(x, ast.Raise)][0]
-        e = S.exc_names[0] if S.exc_names else '\0'
-        same = e in A.src(r.exc) and ('[1]' in A.src(r.exc) or A.is_name(r.exc, e)) and r.cause is None
-        ok = ok and same
+    ok = False
+    for r in A.walk_local(fn):
+        if isinstance(r, ast.Raise) and r.exc is not None and r.lineno > end_try and not any(
+                r is x for x in ast.walk(S.worker)):
+            names = {x.id for x in ast.walk(r.exc) if isinstance(x, ast.Name)}
+            if not (names & derived):
+                continue
+            reraise = r
+            cond = False
+            for test, truth in flow.guards_of(r, fn):
+                t, neg = A.strip_not(test)
+                eff = (truth != neg)
+                if isinstance(t, ast.Compare) and len(t.ops) == 1 and isinstance(t.left, ast.Name) and t.left.id in S.exc_names \
+                        and A.is_const(t.comparators[0], None):
+                    if (isinstance(t.ops[0], ast.IsNot) and eff) or (isinstance(t.ops[0], ast.Is) and not eff):
+                        cond = True
+                elif isinstance(t, ast.Name) and t.id in S.exc_names and eff:
+                    cond = True
+            # the exception object itself (index 1 of sys.exc_info() or the stored exception), no new cause
+            e = flow.expand(r.exc, fn)
+            same = r.cause is None and any(isinstance(x, ast.Name) and x.id in derived for x in ast.walk(r.exc))
+            ok = cond and same
     rep.ob('E2', 'parallel_utils.single_thread_prefetch::stored-error-re-raised-after-delivery-and-shutdown', ok,
            reraise or fn,
            '' if ok else 'after the delivery loop and its finally block the consumer must re-raise the very exception the '
